@@ -7,7 +7,8 @@ open Stack
 namespace DriverC20
 
 structure St where
-  stack : List LayerCfg
+  /-- layers with their admission state (connections in flight / rate tokens left) -/
+  sl : List SLayer
   script : Script
   ok : Bool
 
@@ -92,18 +93,29 @@ def render (s : Script) (r : Result) : String :=
     | none => ("-", "-")
   s!"status={r.resp.status} invoked={r.invoked} body={r.resp.body.length}:{hex8 (adler32 r.resp.body)} hdr={canonHeaders r.resp.headers} flush={flush} hijack={hij} fi={fi} hi={hi}"
 
+/-- initial state as the harness sets it up: the layer at `iv` is driven to its limit (connlimit: max 1 with one parked request
+that also occupies one slot of every other connlimit, whose max is therefore 2; ratelimit: burst consumed); the other counting
+layers are far from theirs (connlimit max 1 with nothing in flight, 10^6 tokens). -/
+def initState (stack : List LayerCfg) (iv : Option Nat) : List SLayer :=
+  let parked : Nat := match iv with
+    | some i => if (stack.getD i default).kind == Kind.connlimit then 1 else 0
+    | none => 0
+  stack.mapIdx fun j l =>
+    let trip := iv == some j
+    match l.kind with
+    | .connlimit => if trip then ({ l with limit := 1 }, 1) else ({ l with limit := 1 + parked }, parked)
+    | .ratelimit => if trip then (l, 0) else (l, 1000000)
+    | _ => ({ l with tripped := trip }, 0)
+
 def init (f : List String) : St × String :=
   let bad := (⟨[], ⟨none, [], [], 0, false⟩, false⟩, "bad-cfg")
   match parseStack ((Driver.kv f "stack").getD "-"), parseScript ((Driver.kv f "h").getD "") with
   | some stack, some sc =>
     match Driver.kv f "intervene" with
-    | none | some "none" => (⟨stack, sc, true⟩, "ok")
+    | none | some "none" => (⟨initState stack none, sc, true⟩, "ok")
     | some v =>
       match v.toNat? with
-      | some i =>
-        if i < stack.length then
-          (⟨stack.mapIdx (fun j l => if j == i then { l with tripped := true } else l), sc, true⟩, "ok")
-        else bad
+      | some i => if i < stack.length then (⟨initState stack (some i), sc, true⟩, "ok") else bad
       | none => bad
   | _, _ => bad
 
@@ -111,8 +123,13 @@ def step (st : St) : List String → St × String
   | "req" :: rest =>
     if !st.ok then (st, "no-scenario") else
     let req : Req := ⟨Driver.kvNat rest "body" 0⟩
+    let abort := Driver.kv rest "abort" == some "1"
     let h : Req → Script := fun r => { st.script with headers := st.script.headers ++ [("X-Req-Len", toString r.bodyLen)] }
-    (st, render (h req) (serveStack st.stack h req))
+    let (o, sl') := serveSt st.sl h req abort Caps.real
+    ({ st with sl := sl' },
+      match o with
+      | .served r => render (h req) r
+      | .aborted k => s!"aborted invoked={k}")
   | _ => (st, "bad-op")
 
 def machine : Driver.Machine St where
